@@ -523,6 +523,25 @@ pub fn gen_red(seed: u64, tier: &str) -> Vec<String> {
         }
         out.lines.push(format!("syn {} {}", sk, hex(old)));
     }
+    // trees that come out of a builder *history*: checkpoints wrapped and reverted (text is added and thrown away again),
+    // static kinds given another text (a documented misuse that optimised builds accept and must survive).  The tree is
+    // only known to the harness' identity-tracking reference, so it is read from the root: every element's span against
+    // that reference, the walks, the text.
+    let nh = if tier == "thorough" { 1500 } else { 150 };
+    for i in 0..nh {
+        out.lines.push(format!("case {}", case));
+        case += 1;
+        out.next_id = 0;
+        out.lines.push(format!("cache {}", bes[i % bes.len()]));
+        out.lines.push("builder c0".into());
+        let len = 5 + rng.below(if i % 10 == 0 { 120 } else { 40 });
+        crate::gen::parser_walk(&mut rng, len, i % 3 == 0, &mut out.lines);
+        out.lines.push(format!("api {}", api_name(i)));
+        out.lines.push("red g0".into());
+        for l in ["nav e0 range", "nav e0 preorder_with_tokens", "nav e0 descendants_with_tokens", "nav e0 children_with_tokens", "resolve e0", "nav e0 last_token", "nav e0 first_token"] {
+            out.lines.push(l.into());
+        }
+    }
     out.lines
 }
 
